@@ -1,3 +1,7 @@
 import Indi.Properties.C14
+import Indi.Properties.Dec.Driver
 #print axioms Indi.Dev.C14_write
 #print axioms Indi.Dev.C14_assign
+#print axioms Indi.Decisions.setValueDefault_agrees
+#print axioms Indi.Decisions.toSetSilent_agrees
+#print axioms Indi.Decisions.setMsg_silent_from_source
